@@ -1495,6 +1495,15 @@ impl ASN1Value {
                 }
                 Ok(())
             }
+            (ASN1Type::Enumerated(e), ASN1Value::ElsewhereDeclaredValue { identifier, .. })
+                if type_name.is_some_and(|n| n.starts_with(INTERNAL_NESTED_TYPE_NAME_PREFIX))
+                    && e.members.iter().any(|m| &m.name == identifier) =>
+            {
+                Err(grammar_error!(
+                    NotYetInplemented,
+                    "Enumerals of an ENUMERATED type defined inside a SEQUENCE or SET are currently unsupported in values: {identifier}"
+                ))
+            }
             (ASN1Type::Enumerated(_), ASN1Value::ElsewhereDeclaredValue { identifier, .. }) => {
                 if let Some((_, tld)) = tlds
                     .iter()
